@@ -22,7 +22,7 @@ import (
 
 // C04 — every RPC call gets its own handler run, result and status.
 
-var c04kinds = []string{"ok", "code", "panic", "oneway", "cstream", "sstream", "early"}
+var c04kinds = []string{"ok", "code", "panic", "oneway", "cstream", "sstream", "early", "sfail"}
 
 func c04request(kind string, id int) prpc.Request {
 	w := prpc.NewRequestWriter()
@@ -103,6 +103,14 @@ func (h *c04server) handle(ctx Context, ch ServerChannel) (ref.R[[]byte], status
 	case "early":
 		// responds without reading the client's stream
 		return valueBytes(fmt.Sprintf("res-%d", id)), status.OK
+	case "sfail":
+		// streams, then fails with an application status: the response message itself ends the stream
+		for i := 0; i < 2; i++ {
+			if st := ch.Send(rctx, []byte(fmt.Sprintf("s%d-%d", id, i))); !st.OK() {
+				return nil, st
+			}
+		}
+		return nil, status.New(status.Code(fmt.Sprintf("my_code_%d", id)), fmt.Sprintf("msg %d", id))
 	case "slow":
 		// never answers on its own: waits until the caller gives up (channel closed / connection lost)
 		for {
@@ -161,7 +169,7 @@ func c04call(c Client, kind string, id int, r *c04result) {
 		if st.OK() {
 			r.result = res.String().Clone()
 		}
-	case "sstream":
+	case "sstream", "sfail":
 		ch, st := c.Channel(ctx, req)
 		if !st.OK() {
 			r.st = st
@@ -217,6 +225,11 @@ func c04check(x *vexp.Ctx, r *c04result, h *c04server, faulty bool) {
 		want := fmt.Sprintf("res-%d:c%d-0,c%d-1", r.id, r.id, r.id)
 		if !r.st.OK() || r.result != want {
 			x.Fail("client-streaming call: stream not delivered in order before the end marker", "%s: status=%v result=%q want %q note=%s", name, r.st, r.result, want, r.note)
+		}
+	case "sfail":
+		want := fmt.Sprintf("[s%d-0 s%d-1]", r.id, r.id)
+		if string(r.st.Code) != fmt.Sprintf("my_code_%d", r.id) || r.st.Message != fmt.Sprintf("msg %d", r.id) || fmt.Sprint(r.stream) != want || r.streamSt.Code != status.CodeEnd {
+			x.Fail("streaming call that fails after streaming: application status or stream not delivered to its caller", "%s: got code=%q message=%q stream=%v streamEnd=%v", name, r.st.Code, r.st.Message, r.stream, r.streamSt.Code)
 		}
 	case "sstream":
 		want := fmt.Sprintf("[s%d-0 s%d-1]", r.id, r.id)
@@ -300,7 +313,7 @@ func init() {
 			}
 			return out
 		},
-		Doc: "real rpc client over a real mpx client (scheduler-controlled connector), real rpc server handler: every ordered pair (thorough: triples) of concurrent calls from {unary ok, application code+message, handler panic, oneway, client-streaming, server-streaming, early response}, MaxConns 1 or 2; every caller is checked against the sequential specification of its own call id; rpc response frames on the wire are counted",
+		Doc: "real rpc client over a real mpx client (scheduler-controlled connector), real rpc server handler: every ordered pair (thorough: triples) of concurrent calls from {unary ok, application code+message, handler panic, oneway, client-streaming, server-streaming, early response, server-streaming that ends with an application status}, MaxConns 1 or 2; every caller is checked against the sequential specification of its own call id; rpc response frames on the wire are counted",
 		Body: func(x *vexp.Ctx) {
 			h := &c04server{invoked: map[int]int{}, streams: map[int][]string{}}
 			srv := &server{handler: HandleFunc(h.handle)}
